@@ -23,13 +23,12 @@ def sig(c):
     """Narrow signature of the first violation of the scenario (classification only; the judge is c06_monitor)."""
     paid = False
     pending = False
-    reload_in_pay = False      # after the payment: the process was restarted (or a store write failed) before ClaimSwap was durable
+    not_durable = False   # the payment succeeded but the process died / a store write failed before ClaimSwap was durable
     role = c.get("role")
     for st in c.get("steps", []):
         inp = st.get("input", "")
         before = st.get("state_before", "")
-        if paid and (inp.endswith("restart")) and any(p in before for p in PAY_STATES):
-            reload_in_pay = True
+        in_pay = any(p in before for p in PAY_STATES)
         pend = list(st.get("pend") or [])
         pi = 0
         for e in st.get("effects") or []:
@@ -43,18 +42,19 @@ def sig(c):
                     pending = True
             elif k == "RecoverPay" and e.get("ok"):
                 paid = True
-            elif k == "Persist" and paid and not e.get("ok", True):
-                pass
             elif k == "Send" and e.get("type") == COOP_TYPE and (paid or pending):
-                if paid and reload_in_pay:
+                if paid and not_durable and in_pay and inp == "restart":
                     return "c06:D4:paid-then-restart-in-pay-state->coop_close"
+                if paid and not_durable and in_pay and inp == "tx_confirmed(err=true)":
+                    return "c06:D4:paid-then-watcher-error-in-pay-state->coop_close"
                 if pending and not paid:
                     return "c06:D3:pay-error-while-htlc-pending->coop_close"
                 return "c06:coop_close_after_payment:%s:%s:%s" % (role, before, inp.split("(")[0])
             elif k == "BroadcastSpend" and paid and e.get("kind") not in (None, "SKPreimage"):
                 return "c06:other_spend_after_payment:%s:%s" % (role, before)
-        if "crash" in st and paid and any(p in st.get("state_after", "") for p in PAY_STATES):
-            reload_in_pay = True
+        after = st.get("state_after", "")
+        if paid and any(p in after for p in PAY_STATES) and ("crash" in st or st.get("store_failed")):
+            not_durable = True
     return "c06:after_payment:%s:%s" % (role, c.get("steps", [{}])[-1].get("state_after", "?"))
 
 
@@ -66,7 +66,7 @@ def describe(c):
 
 
 def run(ctx):
-    n = 110 if ctx.quick else 1400
+    n = 144 if ctx.quick else 1500
     d = ctx.harness("fsm", args=["-n", n] + ARGS)
     if d is None:
         return
